@@ -1,6 +1,7 @@
 package props
 
 import (
+	"sort"
 	"fmt"
 	"math"
 	"math/rand"
@@ -481,6 +482,31 @@ func runC19(c *core.Ctx) {
 		}
 		lists = append(lists, l)
 	}
+	// "append and sort again": an already ordered prefix (33..180 records) followed by 1..8 new records that tie with
+	// earlier ones; also almost-ordered lists with one displaced record
+	for i := 0; i < c.Pick(250, 5000); i++ {
+		n := 33 + rng.Intn(148)
+		l := make([]c19Rec, 0, n+8)
+		for j := 0; j < n; j++ {
+			l = append(l, c19Rec{K1: j * 4 / n, K2: []string{"a", "b", "c"}[(j*3/n+j*4/n)%3], ID: j})
+		}
+		sort.SliceStable(l, func(a, b int) bool { return l[a].K1 < l[b].K1 })
+		extra := 1 + rng.Intn(8)
+		if i%5 == 4 {
+			extra = 9 + rng.Intn(30)
+		}
+		for j := 0; j < extra; j++ {
+			l = append(l, c19Rec{K1: rng.Intn(4), K2: []string{"a", "b", "c"}[rng.Intn(3)], ID: len(l)})
+		}
+		if i%7 == 3 { // one displaced record in the middle instead
+			a, b := rng.Intn(n), rng.Intn(n)
+			l[a], l[b] = l[b], l[a]
+		}
+		for j := range l {
+			l[j].ID = j
+		}
+		lists = append(lists, l)
+	}
 	c19ComparatorSorts(e, lists)
 	c.Count("comparator_lists", int64(len(lists)))
 	// descriptor sorts
@@ -545,7 +571,7 @@ func init() {
 		Meta: func(c *core.Ctx) core.Meta {
 			return core.Meta{
 				Level: "exploration",
-				Rule: "records carry a unique id = input position. Comparator sorts (Sort, SortSlice, Stream.Sort, Stream.SortByIndex and the interface{} twins; SortOrdered/Ascending/Descending on int/string/float64): every list of length 0..L over keys {0,1,2} (L=6 quick, 8 thorough) plus PRNG lists up to 200, five comparators incl. composite and all-equal; oracle = permutation + no pair out of order (all pairs) + stability (all pairs) + input unmodified for the non-in-place forms; float lists with -0.0 / +0.0 (equal but distinguishable) compared bit for bit with a strict stable reference sort, both directions. " +
+				Rule: "records carry a unique id = input position. Comparator sorts (Sort, SortSlice, Stream.Sort, Stream.SortByIndex and the interface{} twins; SortOrdered/Ascending/Descending on int/string/float64): every list of length 0..L over keys {0,1,2} (L=6 quick, 8 thorough) plus PRNG lists up to 200 and 'append and sort again' lists (an ordered prefix of 33..180 records followed by 1..38 new ones that tie with earlier ones), five comparators incl. composite and all-equal; oracle = permutation + no pair out of order (all pairs) + stability (all pairs) + input unmodified for the non-in-place forms; float lists with -0.0 / +0.0 (equal but distinguishable) compared bit for bit with a strict stable reference sort, both directions. " +
 					"Descriptor sorts (SortedListBySortDescriptors, builder.ToSortedList, SortBySortDescriptors, builder.Sort): all 492 stacks of 1..3 distinct keys x direction mixes x {transformer, field-name} with ComparableOrdered[int], ComparableString, ComparableOrdered[float64] keys over all lists up to length 2 (3) of 12 record values plus PRNG lists, field-name stacks also on a second record type that has the same field names at other positions and on []any lists mixing three struct types, and on distinct struct types that PRINT alike (function-local types of one name, fields in another order) sorted one after the other in one process; string keys with invalid UTF-8, NUL and supplementary-plane runes (bytewise order); PRNG lists with keys at the extremes of their type (Max/MinInt64, +-2^62, +-Inf, denormals); builders forked from one shared prefix builder (all one-key extensions of every 0..2-key prefix built first, then each sorts); oracle = permutation ordered under the reference lexicographic comparison. distinct_nontrivial = enumerated (api, comparator/stack, list) cases with >= 2 elements",
 				Assumptions: []string{"only strict comparators are generated (sort.SliceStable's contract)", "no stability claim for descriptor sorts", "descriptor keys are never nil"},
 				Exhaustive:  true,
